@@ -9,6 +9,7 @@ import (
 	"strconv"
 	"strings"
 	"sync/atomic"
+	"time"
 
 	"crypto/sha1"
 
@@ -536,7 +537,23 @@ func init() {
 		"(*time.Timer).Stop":  func(w *W, s *State, args []Value) Value { return FalseT },
 		"(*time.Timer).Reset": func(w *W, s *State, args []Value) Value { return FalseT },
 		"time.Parse": func(w *W, s *State, args []Value) Value {
-			// havoc: arbitrary (value, error); only digit-shaped or symbolic input is expected here.
+			// digit-only input can never match a layout that needs '-' and ':' (RFC 3339): Parse fails;
+			// concrete input is parsed natively; anything else is havoc'd: arbitrary (value, error).
+			if str, ok := args[1].(StrV); ok {
+				if lay, ok2 := args[0].(StrV); ok2 && lay.IsConc() && str.IsConc() {
+					if t, err := time.Parse(lay.S, str.S); err == nil {
+						z := zeroValue(w.e.timeType).(StructV)
+						f := append([]Value(nil), z.F...)
+						f[0] = ConstU(uint64(t.Nanosecond()), 64)
+						f[1] = ConstI(t.Unix()+62135596800, 64)
+						return TupleV{[]Value{StructV{f}, IfaceV{}}}
+					}
+					return TupleV{[]Value{zeroValue(w.e.timeType), w.opaqueErr(s, "time.Parse error")}}
+				}
+				if _, _, digits := numOf(str, false); digits {
+					return TupleV{[]Value{zeroValue(w.e.timeType), w.opaqueErr(s, "time.Parse error")}}
+				}
+			}
 			name := fmt.Sprintf("time.Parse.fails#%d", s.ndBase+len(s.nondets))
 			fail := Var(name, BoolSort)
 			failed := w.decide(s, fail)
